@@ -10,6 +10,7 @@ import (
 // fuzzable lists the sub-checks over pure functions: cheap enough per case for
 // coverage-guided fuzzing to pay off (thorough tier only, time-boxed).
 var fuzzable = map[string]func(*testing.T){
+	"C01/fields":    TestC01_fields,
 	"C14/expand":    TestC14_expand,
 	"C14/distinct":  TestC14_distinct,
 	"C16/job":       TestC16_job,
